@@ -447,6 +447,14 @@ def run(ctx):
     nb = 5 if quick else 40
     bases = [("evo%d" % i, evo.evo_base("c04_%d_%d" % (common.seed(), i))) for i in range(nb)] + \
             [("ser%d" % i, corpus.ser_package("c04s%d_%d" % (common.seed(), i), depth=2)) for i in range(3 if quick else 25)]
+    # unions whose cases are named aliases (of primitives, of a record, of a vector; a generic alias): every generator must see the same model,
+    # whichever generators ran before it in the same process
+    au = Pkg("AliasUnion", [Al("Celsius", P("float32")), Al("Label", P("string")), Rec("Pt", [("x", P("float32"))]), Al("Point", N("Pt")), Al("Samples", V(P("int32"))), Al("Wrapped", TP("T"), ("T",)),
+                            Rec("Holder", [("r", U(((None, N("Celsius")), (None, N("Label"))))), ("o", U(((None, N("Point")), (None, N("Samples"))), True)), ("n", P("int32"))]),
+                            Proto("AuFlow", [("reading", U(((None, N("Celsius")), (None, N("Label"))))), ("items", S(U(((None, N("Point")), (None, N("Celsius")), (None, P("int64")))))), ("h", N("Holder")),
+                                             ("tagged", U((("temp", N("Celsius")), ("pts", N("Samples"))), False, True))]),
+                            Proto("AuSecond", [("x", U(((None, N("Label")), (None, P("int32"))), True)), ("hs", V(N("Holder")))])])
+    bases.append(("aliasunion", au))
     reps = 2 if quick else 6
 
     def one(item):
